@@ -120,6 +120,16 @@ func check(args []string) int {
 		if *replay != "" {
 			extra["replay_of"] = *replay
 		}
+		if *tier == "thorough" && os.Getenv("VERIF_NO_SELFTEST") == "" {
+			st := selftest(*repo, *verif, id, known)
+			printSelftest(id, st)
+			if len(st) > 0 {
+				extra["checker_selftest"] = map[string]any{
+					"what":  "stored seeded changes applied to a scratch copy of the current tree; evidence about the checker, never affects the verdict",
+					"seeds": st,
+				}
+			}
+		}
 		code := core.Finish(main, *verif, known, seed, tp, extra)
 		if code > exit {
 			exit = code
